@@ -47,6 +47,12 @@ def cases(ctx):
         combos = r.sample(combos, 260)
     for sub, lname in combos:
         out.append(mk([[k, LAYOUTS[lname]] for k in sub]))
+    # exact codes WITHOUT a named token (numeric fallback `Unknown(n)`) next to their range / default
+    for code in ["299", "306", "418", "499", "599", "100", "226", "451", "511"]:
+        rng = code[0] + "XX"
+        for extra in ([], ["default"], [str(int(code[0]) * 100)]):
+            for lay in ("none", "json"):
+                out.append(mk([[k, LAYOUTS[lay]] for k in [code, rng] + extra]))
     # mixed layouts, extra media types, odd keys
     for _ in range(500 if ctx.quick else 5000):
         nk = r.randint(1, 5)
